@@ -120,10 +120,13 @@ DESCR = {
                'a clock-expire task past its expiry time triggered by hand into a full queue'),
     'S-C02b': ('task_events_mgr.py _process_message_check: failure messages bypass the gate that ignores messages while a retry is lined up',
                'the failure of one job reported twice (poll result, then the job message) while the task waits for its retry'),
+    'S-C07b': ('config.py add_sequence: the target of a suicide trigger gains the recurrence of the section the trigger is written in',
+               'a suicide trigger written in a section whose recurrence differs from the target task\'s own'),
     'S-C31': ('cycling/integer.py get_nearest_prev_point reduced to get_prev_point',
               'sequential task on a finite recurrence followed after a gap by another recurrence'),
 }
 NOTES = {
+    'S-C07b': 'first missed: the generator wrote no suicide triggers; C07 now adds one, on an output no job produces, in a section other than its target\'s (written verbatim, not modelled)',
     'S-C48b': 'first missed: histories had at most a dozen operations and never ten installs; a share of the histories now starts with 9-12 plain installs',
     'S-C44b': 'first missed: nothing ever loosened an existing private file; after a crash the files left behind are now opened up (chmod go+r) in half of the cases',
     'S-C45b': 'first missed, for two reasons: few runs had two different absolute outputs of one parent (the stop-mode generator now makes them), and the C45-F2 predicate (an earlier instance of the dependent already finished) also matched instances spawned after the output completed, so the seeded violations were filed under the known finding; the predicate now requires the instance to have been pooled before the output completed',
